@@ -3,6 +3,7 @@
 package props
 
 import (
+	"strconv"
 	"fmt"
 	"math/rand/v2"
 	"sync"
@@ -31,7 +32,7 @@ func init() {
 					"Large containers: stack and list queue grown to 3000..12000 and to 262143..1.2 M elements (5 M thorough), shrunk, regrown and drained with constant-time checks on every step and full comparisons at the turning points. mlink.List: 20-60 edits through a population of 4-10 cursors obtained by At/Last/End/Find and moved by Next; Push/Add/Set/Remove/Truncate at any position incl. end-of-list, list Clear; after EVERY edit every cursor is re-checked (Get, AtEnd vs the model) and stale cursors are probed with every method: each must panic \"invalid cursor\" and leave Each unchanged (each probe is announced so that a hang is pinned to it). " +
 					"ring: exhaustive Join over every pair of elements of every configuration of <= 7 elements in <= 2 rings (same ring at every distance, different rings, singletons) and random Of/New/Join/Pop histories over a pool of nodes; after every op a bounded structural walk (Next/Prev mutually inverse, cycles close at their length), the cycles compared with the documented result, At/Peek for every offset |n| != len in [-len-1,len+1], Len, Each with early stop. " +
 					"distinct = hash of the history; non-trivial = list history that created at least one stale cursor / ring case whose Join changed the cycles",
-				Required:     []string{"stack_steps", "queue_steps", "queue_add_after_pop_to_empty", "list_edits", "stale_probes", "stale_truncate_probes", "truncate_then_add_at_end", "set_at_end", "ring_join_same_ring", "ring_join_different_rings", "ring_join_noop", "ring_pops", "ring_exhaustive_cases", "large_histories", "sparse_observation_list_histories", "concurrent_instance_histories", "very_large_containers"},
+				Required:     []string{"stack_steps", "queue_steps", "queue_add_after_pop_to_empty", "list_edits", "stale_probes", "stale_truncate_probes", "truncate_then_add_at_end", "set_at_end", "ring_join_same_ring", "ring_join_different_rings", "ring_join_noop", "ring_pops", "ring_exhaustive_cases", "large_histories", "sparse_observation_list_histories", "concurrent_instance_histories", "very_large_containers", "huge_lists_discarded_in_one_call"},
 				Exhaustive:   true,
 				Assumptions:  []string{"ring.At(n)/Peek(n) for |n| == Len is not constrained (doc comment and code disagree; the property is silent)", "Cursor.Add with no values is a no-op and is not used as a stale probe"},
 				CoverPkgs:    []string{"github.com/creachadair/mds/stack", "github.com/creachadair/mds/mlink", "github.com/creachadair/mds/ring"},
@@ -1258,6 +1259,59 @@ func runC10(c *fw.Ctx) {
 			}
 		}
 		idx += g.n
+	}
+	// huge lists discarded in one call: Clear of a list queue and Truncate through
+	// a cursor near the front, 3 million elements in quick and 24 million in
+	// thorough (what a discard does per element is multiplied accordingly)
+	if strconv.IntSize == 64 && c.Flavour == "plain" && c.Block >= 2 && c.Block < 4 && c.Begin(idx+6900000+c.Block) {
+		n := c.Pick(3000000, 24000000)
+		c.Call("mlink: build %d elements, then discard them in one call (block %d)", n, c.Block)
+		ok, pv, stack := fw.Try(func() {
+			data := map[string]any{"elements": n}
+			if c.Block == 2 {
+				q := mlink.NewQueue[int]()
+				for i := 0; i < n; i++ {
+					q.Add(i)
+					if i&(1<<20-1) == 0 {
+						c.Step()
+					}
+				}
+				if q.Len() != n || q.Front() != 0 {
+					c.Fail(data, "queue of %d elements: Len=%d Front=%d", n, q.Len(), q.Front())
+					return
+				}
+				q.Clear()
+				c.Step()
+				q.Add(7)
+				if v, ok := q.Pop(); q.Len() != 0 || !ok || v != 7 || !q.IsEmpty() {
+					c.Fail(data, "after Clear of %d elements and Add(7): Pop=(%d,%v) Len=%d", n, v, ok, q.Len())
+				}
+				return
+			}
+			lst := mlink.NewList[int]()
+			cu := lst.At(0)
+			for i := 0; i < n; i++ {
+				cu.Add(i)
+				if i&(1<<20-1) == 0 {
+					c.Step()
+				}
+			}
+			stale := lst.At(1000)
+			cut := lst.At(5)
+			cut.Truncate()
+			c.Step()
+			if lst.Len() != 5 || !cut.AtEnd() {
+				c.Fail(data, "after Truncate at position 5 of %d elements: Len=%d AtEnd=%v", n, lst.Len(), cut.AtEnd())
+				return
+			}
+			if p, pv := fw.Panics(func() { stale.Get() }); !p || pv != "invalid cursor" {
+				c.Fail(data, "a cursor into the truncated part (position 1000 of %d) did not refuse to be used: panicked=%v %v", n, p, pv)
+			}
+		})
+		if !ok {
+			c.FailKind("panic", map[string]any{"elements": n}, "panic: %v\n%s", pv, stack)
+		}
+		c.Add("huge_lists_discarded_in_one_call", 1)
 	}
 	// very large containers: 300 000 .. 1.2 M elements (5 M thorough), one size per block
 	if c.Begin(idx + 7000000 + c.Block) {
